@@ -93,9 +93,12 @@ def live_set(upto):
     return live
 
 
-def check_log():
+def check_log(lazy=None):
     active = {}  # name -> connector id being deployed or deployed
     for k, (kind, name, cid) in enumerate(LOG):
+        if kind == "deploy-end" and lazy is not None and name in WRAPS and not lazy[WRAPS[name]] and not lazy[name] and WRAPS[name] not in live_set(k):
+            return {"failure": "(3) a wrapper came up on a wrapped (eager) deployment that is not live: it was undeployed underneath the wrapper", "wrapper": name,
+                    "wrapped": WRAPS[name], "log": LOG[max(0, k - 8):k + 1]}
         if kind == "deploy-start":
             if name in active:
                 return {"failure": "(1) a second connector of a live deployment is deployed", "deployment": name, "log": LOG[max(0, k - 6):k + 1]}
@@ -205,9 +208,68 @@ async def history():
     return bad
 
 
+async def race_history():
+    """a request for a wrapper (which deploys what it wraps on the way) racing with undeploy requests for the WRAPPED deployments, which
+    nobody requested by name: whenever the undeploy arrives — before, during or after the deployment of the wrapped connector — the
+    wrapped deployment stays up as long as the wrapper is live"""
+    LOG.clear()
+    FAIL.clear()
+    DELAY.clear()
+    connector_classes["fake-inner"] = Inner
+    connector_classes["fake-outer"] = Outer
+    lazy = {"inner": False, "mid": False, "outer": rng.random() < 0.3}
+    DELAY["inner"] = rng.randint(2, 10)
+    DELAY["mid"] = rng.randint(1, 6)
+    in_file = {n: {"type": "fake-inner" if n == "inner" else "fake-outer", "config": {}, "external": False, "lazy": lazy[n], "scheduling_policy": None,
+                   "wraps": WRAPS.get(n)} for n in ("inner", "mid", "outer")}
+    context = SimpleNamespace(config={"path": os.path.join(os.getcwd(), "streamflow.yml"), "deployments": in_file})
+    manager = DefaultDeploymentManager(context)
+    top = rng.choice(["mid", "outer"])
+    below = ["inner"] if top == "mid" else ["inner", "mid"]
+    trace = [("deploy", top)]
+
+    async def undeploy_later(name, turns):
+        for _ in range(turns):
+            await asyncio.sleep(0)
+        await manager.undeploy(name)
+
+    tasks = [asyncio.create_task(manager.deploy(config_of(top, lazy)))]
+    for _ in range(rng.randint(1, 3)):
+        name, turns = rng.choice(below), rng.randint(0, 25)
+        trace.append(("undeploy", name, f"after {turns} turns"))
+        tasks.append(asyncio.create_task(undeploy_later(name, turns)))
+    try:
+        await asyncio.wait_for(asyncio.gather(*tasks), 20)
+    except asyncio.TimeoutError:
+        for t in tasks:
+            t.cancel()
+        return {"failure": "(5) a request did not end (it hangs)", "requests": trace, "lazy": lazy, "log": LOG[-10:]}
+    except Exception as e:  # noqa
+        return {"failure": f"a request failed although no deployment failure was injected: {type(e).__name__}: {e}", "requests": trace, "lazy": lazy}
+    bad = check_log(lazy)
+    if bad is None:
+        before = len(LOG)
+        live = live_set(before)
+        try:
+            await asyncio.wait_for(manager.undeploy_all(), 20)
+        except asyncio.TimeoutError:
+            return {"failure": "(4) undeploy_all does not end", "requests": trace, "lazy": lazy, "log": LOG[-10:]}
+        except Exception as e:  # noqa
+            return {"failure": f"(4) undeploy_all raised {type(e).__name__}: {e}", "requests": trace, "lazy": lazy, "log": LOG[-10:]}
+        for name, cid in live.items():
+            n_un = sum(1 for kind, n, c in LOG[before:] if kind == "undeploy-start" and c == cid)
+            if n_un != 1:
+                bad = {"failure": f"(4) undeploy_all undeployed a live connector {n_un} times", "deployment": name, "log": LOG[before:]}
+                break
+        bad = bad or check_log(lazy)
+    if bad:
+        bad.update({"requests": trace, "lazy": lazy})
+    return bad
+
+
 async def search(n):
     for _ in range(n):
-        bad = await history()
+        bad = await history() or await race_history()
         if bad:
             return bad
     return None
